@@ -173,14 +173,25 @@ Definition op2 (c : ascii) : ctok :=
   if Ascii.eqb c "<" then CX (XCmp CLe) else if Ascii.eqb c ">" then CX (XCmp CGe)
   else if Ascii.eqb c "=" then CX (XCmp CEq) else CX (XCmp CNe).
 
-Inductive lstate : Type := LNone | LNum (acc : string) (* reversed *) | LStar | LOp (c : ascii).
+(* LWord: the previous item was a keyword or a backticked fragment, whose text in the generated code ends with a word
+   character.  A {parameter} / <error> term that follows WITHOUT a blank is rendered `self._NAME[…]`, which starts with a
+   word character although the script text starts with `{` / `<`: in the code the two fuse (`not{X}` becomes
+   `notself._X[t]`, genuine defect).  Such a statement is outside the subset: a CBad token is put before the term. *)
+Inductive lstate : Type := LNone | LNum (acc : string) (* reversed *) | LStar | LOp (c : ascii) | LWord.
 Definition flush (st : lstate) : list ctok :=
-  match st with LNone => [] | LNum a => [CNum (rev_str a "")] | LStar => [CStar] | LOp c => [op1 c] end.
+  match st with LNone | LWord => [] | LNum a => [CNum (rev_str a "")] | LStar => [CStar] | LOp c => [op1 c] end.
+Definition fuses (st : lstate) (m : tmatch) : bool :=
+  match st, mkind m with
+  | (LWord | LNum _), (KParameter | KError) => true
+  | _, _ => false
+  end.
+Definition after_match (m : tmatch) : lstate :=
+  match mkind m with KKeyword | KVerbatim => LWord | _ => LNone end.
 
 Fixpoint lex_items (st : lstate) (l : list item) : list ctok :=
   match l with
   | [] => flush st
-  | Tok _ m :: r => (flush st ++ tok_of_match m :: lex_items LNone r)%list
+  | Tok _ m :: r => (flush st ++ (if fuses st m then [CBad] else []) ++ tok_of_match m :: lex_items (after_match m) r)%list
   | Chr c :: r =>
     if is_digit c || Ascii.eqb c "." then
       match st with
